@@ -2097,6 +2097,20 @@ def c10(run):
         pres.append("rel %d %s %s %d %s" % (DEFAULT_MASK if signed else DEFAULT_MASK & ~B_TERNARY, "net,con,gra,cog" if not signed else "net,con",
                                             mat_tokens(m, n, flat_of(M)), len(gs), " ".join(gs)))
     run.batch("presentations-of-network-matrices", pres, "plain")
+    # many presentations of regular matrices that are neither graphic nor cographic (the 3-separation search depends on the line order)
+    pres2 = []
+    for _ in range(500 if quick else 6000):
+        M = regular_by_construction(rng, 3, 6, 1)
+        M = represent(rng, M, False, rng.choice((0, 1, 2)))
+        m, n = len(M), len(M[0])
+        gs = []
+        for _ in range(8):
+            rp = list(range(m)); cp = list(range(n)); rng.shuffle(rp); rng.shuffle(cp)
+            g = "P %s %s" % (" ".join(map(str, rp)), " ".join(map(str, cp)))
+            gs.append("2 %s T" % g if rng.random() < 0.4 else "1 %s" % g)
+        mask = (DEFAULT_MASK | strategy(rng.randrange(5))) & ~B_TERNARY
+        pres2.append("rel %d reg %s %d %s" % (mask, mat_tokens(m, n, flat_of(M)), len(gs), " ".join(gs)))
+    run.batch("presentations-of-regular-matrices", pres2, "plain")
     cut = len(lines) * 3 // 4
     run.batch("transformations", lines[:cut], "plain")
     run.batch("transformations-sanitized", lines[cut:], "asan")
